@@ -4,7 +4,7 @@ Level S correspondence: every transition of real AndersonCD runs (hook events) a
 moves; oracle: the optimality violation recomputed from X, y and the returned (w, b) alone."""
 from .solver_common import run_parallel
 
-LEAN_MODULES = ["Skglm.Properties.Solver"]
+LEAN_MODULES = ["Skglm.Properties.C01"]
 
 
 def run(ctx, rep):
